@@ -203,6 +203,25 @@ func scripted(c *kit.Ctx) []job {
 			}
 		}
 	}
+	// ---- corpus: the two histories that failed before 14eb43d3c / 61c12d2bd (now expected to pass)
+	add("corpus:timeout-after-delete", 1, start([]int{0}, 1), env("launch", 0, 0), env("init", 0, 0), advance(600001), recon(0), cleanup, deliver, cleanup)
+	add("corpus:latched-replacement-gone", 2, start([]int{0, 1}, 2), env("launch", 0, 0), env("launch", 0, 1), env("init", 0, 0), recon(0),
+		env("delapi", 0, 0), env("delstate", 0, 0), env("init", 0, 1), recon(0), cleanup, deliver, cleanup)
+	// the deletion of a latched replacement that the informer has not delivered yet
+	add("latched-replacement-gone-undelivered", 2, start([]int{0, 1}, 2), env("launch", 0, 0), env("launch", 0, 1), env("init", 0, 0), recon(0),
+		env("delapi", 0, 0), env("init", 0, 1), recon(0), cleanup, deliver, cleanup)
+	// ---- a Delete that fails on all attempts after another candidate was deleted, then the command is given up
+	for _, at := range []int64{1, 600001} {
+		for _, victim := range []int{0, 1} {
+			r1 := recon(0)
+			r1.FDel = []jFault{fl(victim, "write", "fail", 4)}
+			r2 := recon(1)
+			r2.FDel = []jFault{fl(victim, "write", "fail", 5)}
+			add("partial-delete-timeout", 2, start([]int{0, 1}, 1), env("launch", 0, 0), env("init", 0, 0), r1, advance(at), r2, cleanup, deliver, cleanup, recon(0))
+			add("partial-delete-vanish", 2, start([]int{0, 1}, 1), env("launch", 0, 0), env("init", 0, 0), r1, env("delapi", 0, 0), env("delstate", 0, 0), advance(at), recon(1), cleanup, deliver, cleanup)
+			add("partial-delete-recovers", 2, start([]int{0, 1}, 1), env("launch", 0, 0), env("init", 0, 0), r1, advance(at), recon(1), cleanup, deliver, cleanup)
+		}
+	}
 	// ---- S5 a restart between any two steps of the protocol
 	base := []jOp{start([]int{0, 1}, 2), env("launch", 0, 0), env("launch", 0, 1), env("init", 0, 1), recon(0), env("init", 0, 0), recon(1), deliver, cleanup}
 	for pos := 0; pos <= len(base); pos++ {
